@@ -302,5 +302,5 @@ def tasks(ctx):
     t = []
     for sh in range(NSHARDS):
         t.append((task_grid, dict(shard=sh)))
-        t.append((task_random, dict(shard=sh, n=ctx.pick(100, 2000))))
+        t.append((task_random, dict(shard=sh, n=ctx.pick(300, 2000))))
     return t
